@@ -30,11 +30,14 @@ def setup():
 
 
 # ------------------------------------------------------------------------------------------ generator
-def dyndep_scenario(rng, sid, static=False, on_rule=False, respell=True):
+def dyndep_scenario(rng, sid, static=False, on_rule=False, respell=True, second_static=False):
     g = gen.Gen(random.Random(rng.randint(0, 2 ** 60)), size=rng.randint(1, 4),
                 feat=dict(deps=0.3, phony=0.1, restat=0.2, generator=0.0, vals=0.1, rsp=0.0, chain=0.7, pools=0.2, dyndep=0.0))
     sc = g.scenario(sid)
     sc = g.add_dyndep(sc, static=static, on_rule=on_rule, respell=respell)
+    if static and second_static:
+        # a second dyndep file of its own, for other statements: what one file says about the other's statements is an error
+        sc = g.add_dyndep(sc, static=True, on_rule=False, tag="e", respell=False)
     if not static and rng.random() < 0.35:
         # a second dyndep file whose statements may take what the first one's statements produce (two levels)
         sc = g.add_dyndep(sc, static=False, on_rule=False, tag="e")
@@ -375,7 +378,7 @@ def classify(sc, ddpath, text):
 def run_invalid(ctx, rng, n):
     items = []
     for k in range(n):
-        sc = dyndep_scenario(rng, "C11i-%d-%d" % (ctx.seed, k), static=True, respell=False)
+        sc = dyndep_scenario(rng, "C11i-%d-%d" % (ctx.seed, k), static=True, respell=False, second_static=rng.random() < 0.5)
         ddp = "dd/x.dd"
         good = sc["sources"][ddp]
         variants = []
@@ -391,6 +394,12 @@ def run_invalid(ctx, rng, n):
         variants.append(("missing-file", None))
         others = [s["outs"][0] for s in sc["stmts"] if s["dyndep"] != ddp and s["kind"] == "cmd"]
         served = [s for s in sc["stmts"] if s["dyndep"] == ddp]
+        elsewhere = [s["outs"][0] for s in sc["stmts"] if s["dyndep"] and s["dyndep"] != ddp]
+        if elsewhere:
+            e_ = rng.choice(elsewhere)
+            variants.append(("extra-statement-bound-elsewhere", good + "build %s: dyndep\n" % e_))
+            variants.append(("extra-statement-bound-elsewhere-first", good.replace("\nbuild ", "\nbuild %s: dyndep | m0.h\nbuild " % e_, 1)))
+            ctx.count("invalid_scenarios_with_two_dyndep_files")
         if others:
             variants.append(("extra-statement", good + "build %s: dyndep\n" % rng.choice(others)))
             variants.append(("others-output", good.replace(": dyndep", " | %s: dyndep" % rng.choice(others), 1)
